@@ -14,7 +14,7 @@ from ..rules import ncallee, norm
 META = {
     "level": "other",
     "technique": "typed-HIR shape rules (probe-loop exit, statement order of hash-table mutation vs fallible steps, skip discipline) + MIR must-pass-through (dirty flag, flush order)",
-    "claim": "Decides termination of the four hash-probe loops, failure atomicity of add/remove/rename with respect to the hash table, the dirty→flush→Drop persistence chain, and that compact drops nothing but internal files. Does not replay operation histories or check table layout after growth. Also: insertion reuses deleted slots (truth table); absolute and archive-relative positions are never mixed (offset-frame analysis over the archive reader / modifier). Wave 5: compact() re-opens the read-only view on every path before reading through it (or flush() does); the probe-loop wrap exit compares with the start value symbolically (rule shared with C05.G). Wave 6: listfile maintenance tests and edits names line by line (no substring contains/replace on the text); adjusted keys use the uncompressed size (shared with C01). Also (wave 6, from a random-history harness): every stream_position() of MutableArchive is dominated by a seek or write of the same function (positions are never taken from the ambient cursor); compact() resets every field another operation sets; update_header writes each header slot from the field the reader takes from that slot (HET/BET slots unarmed: masked by the classic-table fallback); rename_file refuses or re-encrypts files whose key derives from the name. Wave 7: the HET/BET table path of flush is gated by the reader's version rule; stored payloads are not padded before encryption.",
+    "claim": "Decides termination of the four hash-probe loops, failure atomicity of add/remove/rename with respect to the hash table, the dirty→flush→Drop persistence chain, and that compact drops nothing but internal files. Does not replay operation histories or check table layout after growth. Also: insertion reuses deleted slots (truth table); absolute and archive-relative positions are never mixed (offset-frame analysis over the archive reader / modifier). Wave 5: compact() re-opens the read-only view on every path before reading through it (or flush() does); the probe-loop wrap exit compares with the start value symbolically (rule shared with C05.G). Wave 6: listfile maintenance tests and edits names line by line (no substring contains/replace on the text); adjusted keys use the uncompressed size (shared with C01). Also (wave 6, from a random-history harness): every stream_position() of MutableArchive is dominated by a seek or write of the same function (positions are never taken from the ambient cursor); compact() resets every field another operation sets; update_header writes each header slot from the field the reader takes from that slot (HET/BET slots unarmed: masked by the classic-table fallback); rename_file refuses or re-encrypts files whose key derives from the name. Wave 7: the HET/BET table path of flush is gated by the reader's version rule; stored payloads are not padded before encryption. Wave 8: files the modifier reads back in session are stored plain; AddFileOptions setters keep the other settings.",
     "note": "Trusted: Rust drop semantics; the hash table is the only name→block binding. A fallible step after the hash mutation is reported per (mutator, callee).",
     "assumptions": ["listfile maintenance failures are the only fallible steps that legitimately follow the hash-table update (listed as known findings with reproductions)"],
     "explanation": "MutableArchive::{add_file_data, remove_file, rename_file, compact, flush, Drop}, the two MutableArchive probe loops, HashTable::find_file and ArchiveBuilder::add_to_hash_table.",
